@@ -39,8 +39,12 @@ class KickApply:
                 b.dout.append(a)
         A.require(set(self.branches) == {"x", "y"}, "KickMap::apply: x and y branches not found")
         for b in self.branches.values():
-            A.require(len(b.hinfo) == 1 and len(b.din) == 1 and len(b.dout) == 1,
-                      "KickMap::apply(%s): expected one _hinfo read, one grid read, one grid write" % b.axis)
+            A.require(len(b.hinfo) >= 1 and len(b.din) == 1 and len(b.dout) == 1,
+                      "KickMap::apply(%s): expected _hinfo reads, one grid read, one grid write" % b.axis)
+            # several reads of the table (index and weight fetched separately) are fine as long as they address the same entry;
+            # the rules look at the read made inside the innermost (stencil point) loop first
+            b.hinfo.sort(key=lambda a_: -len(a_.loops))
+            b.hinfo_same_entry = all(a_.idx is not None and b.hinfo[0].idx is not None and sp.expand(a_.idx[0] - b.hinfo[0].idx[0]) == 0 for a_ in b.hinfo)
 
 
 def kick_fields(prog):
